@@ -1,4 +1,5 @@
 use rusty_parser::{BareName, FileHandle, TypeQualifier};
+use rusty_variant::Variant;
 
 use crate::RuntimeError;
 use crate::interpreter::interpreter_trait::InterpreterTrait;
@@ -24,7 +25,11 @@ pub fn run<S: InterpreterTrait>(interpreter: &mut S) -> Result<(), RuntimeError>
             .caller_variables()
             .get_built_in(&bare_name, TypeQualifier::DollarString)
             .ok_or(RuntimeError::VariableRequired)?;
-        let mut bytes: Vec<u8> = to_ascii_bytes(v.to_str_unchecked());
+        // the FIELD variable is found by its name: it might not be a string (e.g. an array)
+        let Variant::VString(s) = v else {
+            return Err(RuntimeError::TypeMismatch);
+        };
+        let mut bytes: Vec<u8> = to_ascii_bytes(s);
         fix_length(&mut bytes, width);
         record_contents.append(&mut bytes);
     }
